@@ -348,8 +348,11 @@ def run(tier, seed, replay):
     pairs = cli_pairs(rng, 8 if tier == "quick" else 60)
     outs = c05cli.python_harness([p[0] for p in pairs] + [p[1] for p in pairs])
     bad = 0
+    refused = 0          # pairs in which sk did not accept its arguments (exit status 2, nothing printed): they compare nothing
     for i, p in enumerate(pairs):
         oa, ob = outs[i], outs[len(pairs) + i]
+        if oa.startswith("rc=2 out= ") and ob.startswith("rc=2 out= "):
+            refused += 1
         if oa != ob:
             # once more, slowly (keystroke timing is the only non-determinism)
             oa, ob = c05cli.python_harness([p[0], p[1]], attempt=1)
@@ -361,13 +364,13 @@ def run(tier, seed, replay):
     try:
         ep = os.path.join(core.ROOT, "evidence", ID + ".json")
         ev = json.load(open(ep))
-        ev["coverage"]["binary_level_tiebreak_pairs"] = dict(pairs=len(pairs), mismatches=bad,
+        ev["coverage"]["binary_level_tiebreak_pairs"] = dict(pairs=len(pairs), mismatches=bad, refused_by_sk=refused,
             what="sk (sorting on) under a pty with two --tiebreak lists of the same effective key: the accepted top item must be the same")
         if bad:
             ev["violations"] = ev.get("violations", 0) + bad
         json.dump(ev, open(ep, "w"), indent=1, ensure_ascii=False)
     except Exception:
         pass
-    print("%s binary-level: %d tiebreak pairs, %d mismatches" % (ID, len(pairs), bad))
+    print("%s binary-level: %d tiebreak pairs (%d compared), %d mismatches" % (ID, len(pairs), len(pairs) - refused, bad))
     return 1 if (rc or bad) else 0
 TECHNIQUE += ' + translator tie: the build_rank call sites of the four leaf engines translated into a table of sources and proved to feed the rankKeys of the reported range, the span width / matcher score and the byte length (Props/RankFeedTables.lean)'
